@@ -13,7 +13,7 @@ RULE = ("(histories) call histories (<= 14 calls quick) over <= 4 values per par
         "argument; alru_cache(maxsize 1..4, key_fn None or first-argument-only) on functions and methods, acached_per_instance on 1-3 instances with instance "
         "deletion + gc. (lazy-constant) histories of call / advance clock / dirty on alazy_constant(ttl 0 or small) with a harness clock. Oracle: reference "
         "caches keyed by inspect.signature(...).bind(...) with defaults applied. non-trivial = a hit and a later miss on an evicted/other key, or two spellings "
-        "of one call, or two calls differing only in one parameter; distinct = distinct case JSON")
+        "of one call, or two calls differing only in one parameter; distinct = distinct case JSON The two functions of a decorator object are stamped out of one def with different defaults; two lazy constants are wrapped around one loader.")
 ASSUMPTIONS = ["*args signatures are not generated: qcore.get_args_tuple (a dependency, not this repository) drops keyword-only values when varargs overflow the named parameters",
                "a method cached with alru_cache keeps one cache for all instances, keyed on the instance as well (as functools.lru_cache does)"]
 
